@@ -20,6 +20,9 @@ Definition ltD (d : nat) (l : list ninfo) : Prop := Forall (fun x => x < d) (dep
 Lemma allD_app d a b : allD d (a ++ b) <-> allD d a /\ allD d b.
 Proof. unfold allD. rewrite depths_app. apply Forall_app. Qed.
 
+Lemma allD_skipn d k l : allD d l -> allD d (skipn k l).
+Proof. intros H. rewrite <- (firstn_skipn k l) in H. apply allD_app in H. tauto. Qed.
+
 Lemma allD_wdec d l : allD d l -> wdec (depths l).
 Proof.
   unfold allD. generalize (depths l). induction l0 as [|x l0 IH]; intros H; [constructor|].
@@ -66,6 +69,52 @@ Proof.
       * constructor.
 Qed.
 
+
+(* ---- counting in lists of depths *)
+Lemma cnt_gt d l : Forall (fun x => x > d) l -> cnt d l = 0.
+Proof. intros H. apply cnt_notin. intros Hin. rewrite Forall_forall in H. specialize (H d Hin). lia. Qed.
+Lemma cnt_lt d l : Forall (fun x => x < d) l -> cnt d l = 0.
+Proof. intros H. apply cnt_notin. intros Hin. rewrite Forall_forall in H. specialize (H d Hin). lia. Qed.
+
+Lemma wdec_ge_last l x : wdec l -> In x l -> x >= lastd l.
+Proof.
+  intros Hw Hx. induction l as [|a l IH]; [destruct Hx|]. destruct l as [|b l].
+  - destruct Hx as [<-|[]]. cbn. lia.
+  - assert (lastd (a :: b :: l) = lastd (b :: l)) as -> by reflexivity.
+    destruct Hx as [<-|Hx]; [|apply IH; [inversion Hw; assumption|exact Hx]].
+    apply (hd_ge_all _ _ Hw). right. apply lastd_in. discriminate.
+Qed.
+
+Lemma wdec4 a b c d : wdec a -> wdec b -> wdec c -> wdec d ->
+  (forall x y, In x a -> In y (b ++ c ++ d) -> x >= y) -> (forall x y, In x b -> In y (c ++ d) -> x >= y) ->
+  (forall x y, In x c -> In y d -> x >= y) -> wdec (a ++ b ++ c ++ d).
+Proof.
+  intros Ha Hb Hc Hd H1 H2 H3. apply wdec_app. split; [exact Ha|]. split; [|exact H1].
+  apply wdec_app. split; [exact Hb|]. split; [|exact H2]. apply wdec_app. auto.
+Qed.
+
+Lemma Forall_eq_wdec d l : Forall (eq d) l -> wdec l.
+Proof.
+  induction 1 as [|x l Hx Hl IH]; [constructor|]. constructor; [exact IH|]. eapply Forall_impl; [|exact Hl]. intros y <-. lia.
+Qed.
+
+Lemma cnt_gt' d e l : Forall (fun x => x > d) l -> e <= d -> cnt e l = 0.
+Proof. intros H He. apply cnt_notin. intros Hin. rewrite Forall_forall in H. specialize (H e Hin). lia. Qed.
+Lemma cnt_lt' d e l : Forall (fun x => x < d) l -> d <= e -> cnt e l = 0.
+Proof. intros H He. apply cnt_notin. intros Hin. rewrite Forall_forall in H. specialize (H e Hin). lia. Qed.
+
+Lemma rev_firstn_hd (ds : list nat) s : 0 < s <= length ds -> exists r, rev (firstn s ds) = nth (s - 1) ds 0 :: r.
+Proof.
+  intros Hs. destruct s as [|s]; [lia|]. replace (S s - 1) with s by lia.
+  assert (firstn (S s) ds = firstn s ds ++ [nth s ds 0]) as ->.
+  { revert s Hs. induction ds as [|x ds IH]; intros s Hs; [cbn in Hs; lia|]. destruct s as [|s]; [reflexivity|].
+    cbn [firstn nth app]. f_equal. apply IH. cbn in Hs. lia. }
+  rewrite rev_app_distr. cbn. eauto.
+Qed.
+
+Lemma rev_lastd l : l <> [] -> exists r, rev l = lastd l :: r.
+Proof. intros H. destruct l as [|x l _] using rev_ind; [congruence|]. rewrite rev_app_distr, lastd_snoc. cbn. eauto. Qed.
+
 Section Merge.
 Variable D : nat.
 Variable old : bool.
@@ -96,31 +145,384 @@ Proof.
       as (out & Hm & Hd & Hlen).
     (* the shape of the result of mergeNodes *)
     destruct (merge_nodes_ok D old choose choose_rot _ _ _ _ _ _ Hm) as (pre & cs & post & Eapp & Hp1 & Hp2 & Hp3 & Eout & _).
-    assert (pre = L /\ cs = W1 /\ post = W2 ++ R) as (-> & -> & ->).
-    { assert (length cs = length W1) by lia.
-      assert (pre = L /\ cs ++ post = W1 ++ W2 ++ R) as [-> E2].
-      { apply (app_inv_length' _ _ _ _ Eapp). exact Hp1. }
-      split; [reflexivity|]. apply app_inv_length' in E2; [destruct E2; auto|lia]. }
-    rewrite Esp. rewrite <- !app_assoc in *. rewrite Hl1. rewrite Hm. cbn [bind].
+    assert (L = pre /\ W1 ++ W2 ++ R = cs ++ post) as [<- E2] by (apply (app_inv_length' _ _ _ _ Eapp); lia).
+    apply app_inv_length' in E2 as [<- <-]; [|lia].
     set (m := merged old choose choose_rot W1 next) in *.
     assert (n_depth m = S d) as Hmd.
-    { apply (f_equal depths) in Eout. rewrite Hd in Eout. rewrite !depths_app in Eout. cbn [depths map] in Eout.
-      apply app_inv_head in Eout. injection Eout as Eout _. rewrite <- Eout. f_equal.
-      rewrite E1 in Ha1. inversion Ha1; subst. symmetry. assumption. }
+    { pose proof (f_equal depths Eout) as Ed2. rewrite Hd in Ed2. rewrite !depths_app in Ed2. cbn [depths map] in Ed2.
+      apply app_inv_head in Ed2. cbn [app] in Ed2. injection Ed2 as Ed2. rewrite <- Ed2. f_equal.
+      unfold allD in Ha1. rewrite E1 in Ha1. cbn in Ha1. inversion Ha1 as [|? ? Hx _]. symmetry. exact Hx. }
     destruct (IH (L ++ [m]) W2 R true (S next) d Ha2) as (M & W' & nx & Hi & A1 & A2 & A3 & A4).
     { rewrite app_length. cbn. lia. }
     exists (m :: M), W', nx. split.
-    + rewrite Eout. cbn [app]. rewrite app_length in Hi. cbn [length] in Hi.
+    + rewrite Esp, <- !app_assoc. replace (length L + D) with (length L + length W1) by lia. rewrite Hm. cbn [bind].
+      rewrite Eout. cbn [app]. rewrite app_length in Hi. cbn [length] in Hi.
       replace (S (length L)) with (length L + 1) by lia.
-      replace (length L + (D + length W2) - (D - 1)) with (length L + 1 + length W2) by lia.
+      replace (length L + length (W1 ++ W2) - (D - 1)) with (length L + 1 + length W2) by (rewrite app_length; lia).
       rewrite <- app_assoc in Hi. cbn [app] in Hi. rewrite Hi. cbn [length].
-      rewrite <- !app_assoc. cbn [app]. f_equal. f_equal; [f_equal; [f_equal; lia|lia]|].
-      cbn. destruct changed; reflexivity.
+      rewrite <- !app_assoc. cbn [app orb].
+      replace (changed || (0 <? S (length M))) with true by (cbn; rewrite orb_true_r; reflexivity).
+      replace (length L + S (length M)) with (length L + 1 + length M) by lia. reflexivity.
     + split; [constructor; [symmetry; exact Hmd|exact A1]|]. split; [exact A2|]. split; [exact A3|].
-      rewrite app_length. cbn [length]. lia.
+      rewrite Esp, app_length. cbn [length]. lia.
   - apply Nat.leb_gt in E. exists [], W, next. split.
     + cbn [app length]. rewrite !Nat.add_0_r. cbn. rewrite orb_false_r. reflexivity.
     + split; [constructor|]. split; [exact Ha|]. split; [lia|cbn; lia].
+Qed.
+
+(* the state of the depth loop when the window is uniform: L deeper than d, W all of depth d,
+   R shallower, and no other depth occurs D times *)
+Definition uni (L W R : list ninfo) (d : nat) : Prop :=
+  wdec (depths (L ++ W ++ R)) /\ allD d W /\ gtD d L /\ ltD d R /\
+  forall e, e <> d -> cnt e (depths (L ++ W ++ R)) < D.
+
+Lemma uni_after L W R d M W' : uni L W R d -> allD (S d) M -> allD d W' -> length W' < D ->
+  wdec (depths (L ++ M ++ W' ++ R)) /\
+  (forall e, e <> S d -> cnt e (depths (L ++ M ++ W' ++ R)) < D) /\
+  cnt (S d) (depths (L ++ M ++ W' ++ R)) = cnt (S d) (depths (L ++ W ++ R)) + length M.
+Proof.
+  intros (Hw & Ha & Hg & Hl & Hc) HM HW' Hlen. unfold allD, gtD, ltD in *.
+  rewrite !depths_app in *.
+  apply wdec_app in Hw as (HwL & Hw & _). apply wdec_app in Hw as (_ & HwR & _).
+  split; [|split].
+  - apply wdec4; [exact HwL|apply (Forall_eq_wdec (S d)); exact HM|apply (Forall_eq_wdec d); exact HW'|exact HwR| | |].
+    + intros x y Hx Hy. rewrite Forall_forall in Hg. specialize (Hg x Hx).
+      apply in_app_or in Hy as [Hy|Hy]; [rewrite Forall_forall in HM; rewrite <- (HM y Hy); lia|].
+      apply in_app_or in Hy as [Hy|Hy]; [rewrite Forall_forall in HW'; rewrite <- (HW' y Hy); lia|].
+      rewrite Forall_forall in Hl. specialize (Hl y Hy). lia.
+    + intros x y Hx Hy. rewrite Forall_forall in HM. rewrite <- (HM x Hx).
+      apply in_app_or in Hy as [Hy|Hy]; [rewrite Forall_forall in HW'; rewrite <- (HW' y Hy); lia|].
+      rewrite Forall_forall in Hl. specialize (Hl y Hy). lia.
+    + intros x y Hx Hy. rewrite Forall_forall in HW'. rewrite <- (HW' x Hx).
+      rewrite Forall_forall in Hl. specialize (Hl y Hy). lia.
+  - intros e He. rewrite !cnt_app. rewrite (cnt_all_other (S d) e _ HM He).
+    destruct (Nat.eq_dec e d) as [->|Hed].
+    + rewrite (cnt_gt d _ Hg), (cnt_lt d _ Hl), (cnt_all d _ HW'), depths_length. lia.
+    + rewrite (cnt_all_other d e _ HW' Hed). specialize (Hc e Hed). rewrite !cnt_app, (cnt_all_other d e _ Ha Hed) in Hc. lia.
+  - rewrite !cnt_app, (cnt_all (S d) _ HM), depths_length.
+    rewrite (cnt_all_other d (S d) _ HW'), (cnt_all_other d (S d) _ Ha) by lia. lia.
+Qed.
+
+Lemma loop3_uniform fuel : forall L W R d pd next, pd <= d -> uni L W R d -> length (L ++ W ++ R) < fuel ->
+  exists out nx, merge_loop3 fuel (L ++ W ++ R) (length L) (length L + length W) d pd next = Ok (out, nx) /\
+    Inv D (depths out).
+Proof.
+  induction fuel as [|fuel IH]; intros L W R d pd next Hpd Hu Hf; [lia|].
+  cbn [PageTree.merge_loop3].
+  destruct Hu as (Hw & Ha & Hg & Hl & Hc).
+  destruct (inner_uniform (S (length L + length W)) L W R false next d Ha ltac:(lia)) as (M & W' & nx & Hi & A1 & A2 & A3 & A4).
+  rewrite Hi. cbn [bind orb].
+  destruct (uni_after L W R d M W' (conj Hw (conj Ha (conj Hg (conj Hl Hc)))) A1 A2 A3) as (U1 & U2 & U3).
+  assert (pd <=? d = true) as -> by (apply Nat.leb_le; exact Hpd). cbn [andb].
+  destruct M as [|m0 M0] eqn:EM.
+  - (* nothing merged: done *)
+    cbn [length Nat.ltb Nat.leb negb orb]. exists (L ++ [] ++ W' ++ R), nx. split; [reflexivity|].
+    split; [exact U1|]. intros e. destruct (Nat.eq_dec e (S d)) as [->|He]; [|apply U2; exact He].
+    rewrite U3. cbn [length]. rewrite Nat.add_0_r. apply Hc. lia.
+  - rewrite <- EM in *. assert (0 < length M) as HM by (rewrite EM; cbn; lia).
+    assert (0 <? length M = true) as -> by (apply Nat.ltb_lt; exact HM). cbn [negb orb].
+    assert (length L + length M =? 0 = false) as -> by (apply Nat.eqb_neq; lia).
+    assert (d <? pd = false) as -> by (apply Nat.ltb_ge; exact Hpd). cbn [andb].
+    (* the next window: the nodes of depth d+1 at the end of L, and M *)
+    destruct (tail_run_split L (S d)) as (L' & T & EL & HT & HaT & HL').
+    assert (firstn (length L + length M) (depths (L ++ M ++ W' ++ R)) = depths L ++ depths M) as ->.
+    { rewrite !depths_app, app_assoc. rewrite firstn_app, firstn_all2 by (rewrite app_length, !depths_length; lia).
+      rewrite app_length, !depths_length, Nat.sub_diag. cbn [firstn]. apply app_nil_r. }
+    rewrite rev_app_distr, lead_run_all by (apply Forall_rev; exact A1).
+    rewrite rev_length, depths_length, <- HT.
+    replace (length L + length M - (length M + length T)) with (length L') by (rewrite EL, app_length; lia).
+    replace (L ++ M ++ W' ++ R) with (L' ++ (T ++ M) ++ (W' ++ R)) by (rewrite EL, <- !app_assoc; reflexivity).
+    replace (length L + length M) with (length L' + length (T ++ M)) by (rewrite EL, !app_length; lia).
+    apply IH; [lia| |].
+    + assert (L' ++ (T ++ M) ++ W' ++ R = L ++ M ++ W' ++ R) as Eq by (rewrite EL, <- !app_assoc; reflexivity).
+      unfold uni. rewrite Eq. split; [exact U1|]. split; [apply allD_app; auto|]. split; [|split; [|exact U2]].
+      * (* what is left of L is deeper than d+1 *)
+        unfold gtD. rewrite Forall_forall. intros x Hx.
+        assert (wdec (depths L')) as HwL'.
+        { rewrite depths_app in Hw. apply wdec_app in Hw as (HwL & _). rewrite EL, depths_app in HwL. apply wdec_app in HwL. tauto. }
+        destruct HL' as [->|Hne]; [destruct Hx|].
+        pose proof (wdec_ge_last _ x HwL' Hx) as Hge.
+        assert (lastd (depths L') > d) as Hgt.
+        { unfold gtD in Hg. rewrite EL, depths_app, Forall_app in Hg. destruct Hg as [Hg _]. rewrite Forall_forall in Hg. apply Hg.
+          apply lastd_in. destruct L'; [destruct Hx|discriminate]. }
+        lia.
+      * unfold ltD, allD in *. rewrite depths_app. apply Forall_app. split.
+        -- eapply Forall_impl; [|exact A2]. intros y <-. lia.
+        -- eapply Forall_impl; [|exact Hl]. intros y Hy. cbv beta in Hy. lia.
+    + (* the list got shorter *)
+      rewrite EL in *. rewrite !app_length in *. nia.
+Qed.
+
+(* ---- the first loop of merge *)
+Lemma merge_loop1_ok fuel : forall a nd next, length a < fuel -> a <> [] -> LI D (depths a) ->
+  exists out nx, merge_loop1 fuel a nd next = Ok (out, nx) /\ LI D (depths out) /\ out <> [] /\
+    (length out <= 1 \/ nd <= lastd (depths out)).
+Proof.
+  induction fuel as [|fuel IH]; intros a nd next Hf Hne HLI; [lia|]. cbn [PageTree.merge_loop1].
+  destruct ((1 <? length a) && (last_depth a <? nd)) eqn:E.
+  - apply andb_prop in E as [E1 E2]. apply Nat.ltb_lt in E1.
+    destruct (squeeze_ok D old choose choose_rot HD a next HLI ltac:(lia)) as (out & nx & Hs & HLI' & Hl & Hne').
+    rewrite Hs. cbn [bind]. apply IH; [lia|exact Hne'|exact HLI'].
+  - exists a, next. split; [reflexivity|]. split; [exact HLI|]. split; [exact Hne|].
+    apply andb_false_iff in E as [E|E]; [left; apply Nat.ltb_ge in E; exact E|right].
+    apply Nat.ltb_ge in E. unfold last_depth, depth_at in E. rewrite lastd_nth, depths_length. exact E.
+Qed.
+
+(* ---- iterations of the depth loop in which nothing can happen: the window is empty and
+   everything to the left of it is deeper than prev_depth *)
+Lemma loop3_idle fuel : forall a s depth pd next, depth <= pd -> pd - depth < fuel ->
+  (s = 0 \/ (0 < s <= length a /\ nth (s - 1) (depths a) 0 > pd)) ->
+  merge_loop3 fuel a s s depth pd next = Ok (a, next).
+Proof.
+  induction fuel as [|fuel IH]; intros a s depth pd next Hd Hf Hs; [lia|]. cbn [PageTree.merge_loop3 PageTree.merge_inner].
+  assert (s + D <=? s = false) as -> by (apply Nat.leb_gt; lia). cbn [bind negb andb].
+  rewrite andb_true_r.
+  destruct (pd <=? depth) eqn:E1; [reflexivity|]. apply Nat.leb_gt in E1.
+  destruct Hs as [->|(Hs1 & Hs2)]; [reflexivity|].
+  assert (s =? 0 = false) as -> by (apply Nat.eqb_neq; lia). cbn [orb].
+  destruct (rev_firstn_hd (depths a) s ltac:(rewrite depths_length; lia)) as (r & ->).
+  rewrite lead_run_stop by lia. rewrite Nat.sub_0_r. apply IH; [lia|lia|right; auto].
+Qed.
+
+(* ---- the depth loop on the concatenation of two tails: A0 deeper than p, Pp the run of depth p
+   that ends the first tail, Qq the run of depth q <= p that starts the second, B1 shallower *)
+Section Core.
+Variables (A0 Pp Qq B1 : list ninfo) (p q : nat).
+Hypothesis Hqp : q <= p.
+Hypothesis Hw : wdec (depths (A0 ++ Pp ++ Qq ++ B1)).
+Hypothesis HA0 : gtD p A0.
+Hypothesis HPp : allD p Pp.
+Hypothesis HQq : allD q Qq.
+Hypothesis HB1 : ltD q B1.
+Hypothesis HcA : forall e, cnt e (depths A0) < D.
+Hypothesis HcB : forall e, cnt e (depths B1) < D.
+Hypothesis HlP : 1 <= length Pp <= D.
+Hypothesis HlQ : 1 <= length Qq < D.
+
+Lemma cnt_ab e : cnt e (depths (A0 ++ Pp ++ Qq ++ B1)) =
+  cnt e (depths A0) + (if Nat.eq_dec e p then length Pp else 0) + (if Nat.eq_dec e q then length Qq else 0) + cnt e (depths B1).
+Proof.
+  rewrite !depths_app, !cnt_app. unfold allD in *.
+  destruct (Nat.eq_dec e p) as [E1|H1]; destruct (Nat.eq_dec e q) as [E2|H2].
+  - subst e. subst q. rewrite (cnt_all _ _ HPp), (cnt_all _ _ HQq), !depths_length. lia.
+  - subst e. rewrite (cnt_all _ _ HPp), (cnt_all_other q p _ HQq H2), !depths_length. lia.
+  - subst e. rewrite (cnt_all _ _ HQq), (cnt_all_other p q _ HPp H1), !depths_length. lia.
+  - rewrite (cnt_all_other p e _ HPp H1), (cnt_all_other q e _ HQq H2). lia.
+Qed.
+
+Lemma core_small next fuel : length Pp + length Qq < D -> q < p -> p - q < fuel ->
+  exists out nx, merge_loop3 fuel (A0 ++ Pp ++ Qq ++ B1) (length A0) (length A0 + (length Pp + length Qq)) q p next = Ok (out, nx) /\
+    Inv D (depths out).
+Proof.
+  intros Hsm Hlt Hf. exists (A0 ++ Pp ++ Qq ++ B1), next. split.
+  - destruct fuel as [|fuel]; [lia|]. cbn [PageTree.merge_loop3 PageTree.merge_inner].
+    assert (length A0 + D <=? length A0 + (length Pp + length Qq) = false) as -> by (apply Nat.leb_gt; lia).
+    cbn [bind negb andb]. assert (p <=? q = false) as -> by (apply Nat.leb_gt; lia). cbn [andb orb].
+    destruct (length A0 =? 0) eqn:E0; [reflexivity|]. apply Nat.eqb_neq in E0.
+    assert (firstn (length A0) (depths (A0 ++ Pp ++ Qq ++ B1)) = depths A0) as ->.
+    { rewrite depths_app, firstn_app, firstn_all2 by (rewrite depths_length; lia). rewrite depths_length, Nat.sub_diag. cbn. apply app_nil_r. }
+    assert (lastd (depths A0) > p) as Hlast.
+    { unfold gtD in HA0. rewrite Forall_forall in HA0. apply HA0. apply lastd_in. destruct A0; [cbn in E0; lia|discriminate]. }
+    destruct (rev_lastd (depths A0)) as (r & Er); [destruct A0; [cbn in E0; lia|discriminate]|].
+    rewrite Er, lead_run_stop by lia. rewrite Nat.sub_0_r.
+    apply loop3_idle; [lia|lia|]. right. split; [rewrite !app_length; lia|].
+    rewrite depths_app, app_nth1 by (rewrite depths_length; lia). rewrite <- (depths_length A0), <- lastd_nth. exact Hlast.
+  - split; [exact Hw|]. intros e. rewrite cnt_ab. pose proof (HcA e) as X1. pose proof (HcB e) as X2.
+    unfold gtD, ltD in *.
+    destruct (Nat.eq_dec e p) as [E1|H1]; destruct (Nat.eq_dec e q) as [E2|H2].
+    + lia.
+    + subst e. rewrite (cnt_gt p _ HA0), (cnt_lt' q p _ HB1) by lia. lia.
+    + subst e. rewrite (cnt_gt' p q _ HA0), (cnt_lt q _ HB1) by lia. lia.
+    + destruct (Nat.lt_ge_cases e q); [rewrite (cnt_gt' p e _ HA0) by lia; lia|rewrite (cnt_lt' q e _ HB1) by lia; lia].
+Qed.
+
+Lemma core_eq next fuel : q = p -> length (A0 ++ Pp ++ Qq ++ B1) < fuel ->
+  exists out nx, merge_loop3 fuel (A0 ++ Pp ++ Qq ++ B1) (length A0) (length A0 + (length Pp + length Qq)) q p next = Ok (out, nx) /\
+    Inv D (depths out).
+Proof.
+  intros E Hf.
+  replace (A0 ++ Pp ++ Qq ++ B1) with (A0 ++ (Pp ++ Qq) ++ B1) by (rewrite <- !app_assoc; reflexivity).
+  rewrite <- app_length. apply loop3_uniform; [lia| |rewrite <- !app_assoc; exact Hf].
+  unfold uni. replace (A0 ++ (Pp ++ Qq) ++ B1) with (A0 ++ Pp ++ Qq ++ B1) by (rewrite <- !app_assoc; reflexivity).
+  split; [exact Hw|]. split; [apply allD_app; split; [rewrite E; exact HPp|exact HQq]|]. split; [rewrite E; exact HA0|]. split; [exact HB1|].
+  intros e He. rewrite cnt_ab. pose proof (HcA e) as X1. pose proof (HcB e) as X2. unfold gtD, ltD in *.
+  destruct (Nat.eq_dec e p) as [E1|H1]; [lia|]. destruct (Nat.eq_dec e q) as [E2|H2]; [lia|].
+  destruct (Nat.lt_ge_cases e p); [rewrite (cnt_gt' p e _ HA0) by lia; lia|rewrite (cnt_lt' q e _ HB1) by lia; lia].
+Qed.
+
+Lemma core_big next fuel : D <= length Pp + length Qq -> q < p -> length (A0 ++ Pp ++ Qq ++ B1) + 1 < fuel ->
+  exists out nx, merge_loop3 fuel (A0 ++ Pp ++ Qq ++ B1) (length A0) (length A0 + (length Pp + length Qq)) q p next = Ok (out, nx) /\
+    Inv D (depths out).
+Proof.
+  intros Hbig Hlt Hf. destruct fuel as [|fuel]; [lia|]. cbn [PageTree.merge_loop3 PageTree.merge_inner].
+  assert (length A0 + D <=? length A0 + (length Pp + length Qq) = true) as -> by (apply Nat.leb_le; lia).
+  (* the first D nodes of the window: all of Pp and some of Qq *)
+  destruct Pp as [|x Pp'] eqn:EP; [cbn in HlP; lia|]. rewrite <- EP in *.
+  set (W := Pp ++ Qq). assert (length W = length Pp + length Qq) as HlW by (unfold W; apply app_length).
+  destruct (split_at D W ltac:(lia)) as (Esp & Hl1 & Hl2).
+  remember (firstn D W) as W1 eqn:X1. remember (skipn D W) as W2 eqn:X2.
+  assert (allD q W2) as HW2.
+  { rewrite X2. unfold W. rewrite skipn_app, skipn_all2 by lia. cbn [app]. apply (allD_skipn q). exact HQq. }
+  assert (exists r, W1 = x :: r) as (r & E1).
+  { rewrite X1. unfold W. rewrite EP. destruct D as [|D']; [lia|]. cbn. eauto. }
+  assert (wdec (depths (Pp ++ Qq))) as HwW.
+  { rewrite !depths_app in Hw. apply wdec_app in Hw as (_ & Hw2 & _). rewrite app_assoc in Hw2. apply wdec_app in Hw2 as (Hw3 & _).
+    rewrite depths_app. exact Hw3. }
+  assert (wdec (depths W1)) as HwW1.
+  { rewrite X1. unfold depths. rewrite <- firstn_map. apply wdec_firstn. exact HwW. }
+  assert (n_depth x = p) as Hx.
+  { unfold allD in HPp. rewrite EP in HPp. cbn in HPp. inversion HPp as [|? ? Hy _]. symmetry. exact Hy. }
+  assert (A0 ++ Pp ++ Qq ++ B1 = A0 ++ W1 ++ W2 ++ B1) as Elist.
+  { f_equal. rewrite app_assoc. fold W. rewrite Esp, <- app_assoc. reflexivity. }
+  rewrite Elist in *.
+  destruct (merge_nodes_succeeds D old choose choose_rot HD A0 W1 (W2 ++ B1) next x r E1 ltac:(lia) HwW1) as (out & Hm & Hd & Hlen).
+  replace (length A0 + D) with (length A0 + length W1) by lia. rewrite Hm. cbn [bind].
+  destruct (merge_nodes_ok D old choose choose_rot _ _ _ _ _ _ Hm) as (pre & cs & post & Eapp & Hp1 & Hp2 & Hp3 & Eout & _).
+  assert (A0 = pre /\ W1 ++ W2 ++ B1 = cs ++ post) as [<- E2] by (apply (app_inv_length' _ _ _ _ Eapp); lia).
+  apply app_inv_length' in E2 as [<- <-]; [|lia].
+  set (m := merged old choose choose_rot W1 next) in *.
+  assert (n_depth m = S p) as Hmd.
+  { pose proof (f_equal depths Eout) as Ed2. rewrite Hd in Ed2. rewrite !depths_app in Ed2. cbn [depths map] in Ed2.
+    apply app_inv_head in Ed2. cbn [app] in Ed2. injection Ed2 as Ed2. rewrite <- Ed2, Hx. reflexivity. }
+  (* nothing more to merge at depth q *)
+  destruct (inner_uniform (length A0 + (length Pp + length Qq)) (A0 ++ [m]) W2 B1 true (S next) q HW2) as (M & W' & nx & Hi & A1 & A2 & A3 & A4).
+  { rewrite app_length. cbn [length]. lia. }
+  assert (M = []) as ->.
+  { destruct M; [reflexivity|]. cbn [length] in A4. exfalso. nia. }
+  rewrite Eout. rewrite app_length in Hi. cbn [length] in Hi.
+  replace (S (length A0)) with (length A0 + 1) by lia.
+  replace (length A0 + (length Pp + length Qq) - (D - 1)) with (length A0 + 1 + length W2) by lia.
+  rewrite <- app_assoc in Hi. rewrite Hi. cbn [bind length orb negb andb].
+  change ((A0 ++ [m]) ++ [] ++ W' ++ B1) with ((A0 ++ [m]) ++ W' ++ B1).
+  assert (p <=? q = false) as -> by (apply Nat.leb_gt; lia). cbn [andb orb].
+  assert (length A0 + 1 + 0 =? 0 = false) as -> by (apply Nat.eqb_neq; lia).
+  assert (q <? p = true) as -> by (apply Nat.ltb_lt; lia).
+  (* the window of depth p+1: the nodes of that depth at the end of A0, and m *)
+  destruct (tail_run_split A0 (S p)) as (A0' & T & EA & HT & HaT & HA').
+  assert (firstn (length A0 + 1 + 0) (depths ((A0 ++ [m]) ++ W' ++ B1)) = depths A0 ++ [S p]) as ->.
+  { rewrite !depths_app. cbn [depths map]. rewrite Hmd. rewrite firstn_app, firstn_all2 by (rewrite app_length, depths_length; cbn; lia).
+    rewrite app_length, depths_length. cbn [length]. replace (length A0 + 1 + 0 - (length A0 + 1)) with 0 by lia. cbn [firstn]. apply app_nil_r. }
+  rewrite rev_app_distr. cbn [rev app PageTree.lead_run]. rewrite Nat.eqb_refl, <- HT.
+  replace (length A0 + 1 + 0 - S (length T)) with (length A0') by (rewrite EA, app_length; lia).
+  replace ((A0 ++ [m]) ++ W' ++ B1) with (A0' ++ (T ++ [m]) ++ (W' ++ B1)) by (rewrite EA, <- !app_assoc; reflexivity).
+  replace (length A0 + 1 + 0) with (length A0' + length (T ++ [m])) by (rewrite EA, !app_length; cbn; lia).
+  apply loop3_uniform; [lia| |].
+  - assert (A0' ++ (T ++ [m]) ++ W' ++ B1 = A0 ++ [m] ++ W' ++ B1) as Eq by (rewrite EA, <- !app_assoc; reflexivity).
+    assert (wdec (depths A0)) as HwA0 by (rewrite depths_app in Hw; apply wdec_app in Hw; tauto).
+    assert (wdec (depths B1)) as HwB1.
+    { rewrite !depths_app in Hw. apply wdec_app in Hw as (_ & Hw2 & _). apply wdec_app in Hw2 as (_ & Hw3 & _). apply wdec_app in Hw3. tauto. }
+    unfold uni. rewrite Eq. unfold allD, gtD, ltD in *. split; [|split; [|split; [|split]]].
+    + rewrite !depths_app. apply wdec4; [exact HwA0|constructor; constructor|apply (Forall_eq_wdec q); exact A2|exact HwB1| | |].
+      * intros a b Ha Hb. rewrite Forall_forall in HA0. specialize (HA0 a Ha). cbn [depths map app] in Hb. rewrite Hmd in Hb.
+        destruct Hb as [<-|Hb]; [lia|]. apply in_app_or in Hb as [Hb|Hb].
+        -- rewrite Forall_forall in A2. rewrite <- (A2 b Hb). lia.
+        -- rewrite Forall_forall in HB1. specialize (HB1 b Hb). lia.
+      * intros a b [<-|[]] Hb. rewrite Hmd. apply in_app_or in Hb as [Hb|Hb].
+        -- rewrite Forall_forall in A2. rewrite <- (A2 b Hb). lia.
+        -- rewrite Forall_forall in HB1. specialize (HB1 b Hb). lia.
+      * intros a b Ha Hb. rewrite Forall_forall in A2. rewrite <- (A2 a Ha). rewrite Forall_forall in HB1. specialize (HB1 b Hb). lia.
+    + rewrite depths_app. apply Forall_app. split; [exact HaT|]. cbn [depths map]. constructor; [symmetry; exact Hmd|constructor].
+    + rewrite Forall_forall. intros y Hy.
+      assert (wdec (depths A0')) as HwA' by (rewrite EA, depths_app in HwA0; apply wdec_app in HwA0; tauto).
+      destruct HA' as [->|Hne]; [destruct Hy|].
+      pose proof (wdec_ge_last _ y HwA' Hy) as Hge.
+      assert (lastd (depths A0') > p) as Hgt.
+      { pose proof HA0 as HA0c. rewrite EA, depths_app, Forall_app in HA0c. destruct HA0c as [HA0d _]. rewrite Forall_forall in HA0d. apply HA0d.
+        apply lastd_in. destruct A0'; [destruct Hy|discriminate]. }
+      lia.
+    + rewrite depths_app. apply Forall_app. split.
+      * eapply Forall_impl; [|exact A2]. intros y <-. lia.
+      * eapply Forall_impl; [|exact HB1]. intros y Hy. cbv beta in Hy. lia.
+    + intros e He. rewrite !depths_app, !cnt_app. cbn [depths map]. rewrite Hmd. unfold cnt at 2. cbn [count_occ].
+      destruct (Nat.eq_dec (S p) e) as [E|_]; [congruence|].
+      pose proof (HcA e) as Y1. pose proof (HcB e) as Y2.
+      destruct (Nat.eq_dec e q) as [Eq2|Hq].
+      * subst e. rewrite (cnt_all q _ A2), depths_length, (cnt_gt' p q _ HA0), (cnt_lt q _ HB1) by lia. lia.
+      * rewrite (cnt_all_other q e _ A2 Hq).
+        destruct (Nat.lt_ge_cases e q); [rewrite (cnt_gt' p e _ HA0) by lia; lia|rewrite (cnt_lt' q e _ HB1) by lia; lia].
+  - rewrite EA in *. rewrite !app_length in *. cbn [length] in *. lia.
+Qed.
+
+End Core.
+
+(* ---- merge *)
+Lemma lastd_ge_all l x : wdec l -> In x l -> x >= lastd l.
+Proof. apply wdec_ge_last. Qed.
+
+Theorem merge_ok a b next : Inv D (depths a) -> Inv D (depths b) ->
+  exists out nx, merge a b next = Ok (out, nx) /\ Inv D (depths out).
+Proof.
+  intros Ia Ib. unfold PageTree.merge.
+  destruct a as [|a0 ar] eqn:Ea; [eauto|]. destruct b as [|b0 br] eqn:Eb; [eauto|]. rewrite <- Ea, <- Eb in *.
+  set (q := n_depth b0).
+  destruct (merge_loop1_ok (S (length a)) a q next ltac:(lia) ltac:(rewrite Ea; discriminate) (Inv_LI D _ Ia))
+    as (a1 & n1 & H1 & HLI1 & Hne1 & Hlast1).
+  rewrite H1. cbn [bind].
+  (* a single node is lifted to the depth of the second tail *)
+  set (a2 := match a1 with [x] => if n_depth x <? q then [set_depth q x] else [x] | _ => a1 end).
+  assert (LI D (depths a2) /\ a2 <> [] /\ q <= lastd (depths a2) /\ length a2 = length a1) as (HLI2 & Hne2 & Hq2 & Hlen2).
+  { unfold a2. destruct a1 as [|x [|y r]]; [congruence| |].
+    - destruct (n_depth x <? q) eqn:E; cbn [depths map set_depth n_depth].
+      + split; [apply LI_single; exact HD|]. split; [discriminate|]. split; [cbn; lia|reflexivity].
+      + apply Nat.ltb_ge in E. split; [exact HLI1|]. split; [discriminate|]. split; [cbn; exact E|reflexivity].
+    - split; [exact HLI1|]. split; [discriminate|]. split; [|reflexivity]. destruct Hlast1 as [H|H]; [cbn in H; lia|exact H]. }
+  clearbody a2. set (p := last_depth a2).
+  assert (p = lastd (depths a2)) as Ep by (unfold p, last_depth, depth_at; rewrite lastd_nth, depths_length; reflexivity).
+  (* the two runs that meet *)
+  destruct (tail_run_split a2 p) as (A0 & Pp & EA & HlP & HaP & HA0).
+  destruct (head_run_split b q) as (Qq & B1 & EB & HlQ & HaQ & HB1).
+  assert (wdec (depths a2)) as Hwa by apply HLI2. assert (wdec (depths b)) as Hwb by apply Ib.
+  assert (1 <= length Pp) as HP1.
+  { rewrite HlP. destruct (rev_lastd (depths a2)) as (r & Er); [destruct a2; [congruence|discriminate]|].
+    rewrite Er, <- Ep. cbn. rewrite Nat.eqb_refl. lia. }
+  assert (length Pp <= D) as HP2.
+  { destruct HLI2 as [_ Hc]. destruct (Hc p) as [Hc1 _]. rewrite EA, depths_app, cnt_app, (cnt_all p _ HaP), depths_length in Hc1. lia. }
+  assert (1 <= length Qq) as HQ1.
+  { rewrite HlQ, Eb. cbn [depths map PageTree.lead_run]. fold q. rewrite Nat.eqb_refl. lia. }
+  assert (length Qq < D) as HQ2.
+  { destruct Ib as [_ Hc]. specialize (Hc q). rewrite EB, depths_app, cnt_app, (cnt_all q _ HaQ), depths_length in Hc. lia. }
+  assert (gtD p A0) as HgA.
+  { unfold gtD. rewrite Forall_forall. intros x Hx. destruct HA0 as [->|Hne]; [destruct Hx|].
+    assert (wdec (depths A0)) as HwA0 by (rewrite EA, depths_app in Hwa; apply wdec_app in Hwa; tauto).
+    pose proof (wdec_ge_last _ x HwA0 Hx) as H1'.
+    assert (lastd (depths A0) >= p) as H2'.
+    { rewrite Ep. apply wdec_ge_last; [exact Hwa|]. rewrite EA, depths_app. apply in_or_app. left. apply lastd_in.
+      destruct A0; [destruct Hx|discriminate]. }
+    lia. }
+  assert (ltD q B1) as HlB.
+  { unfold ltD. rewrite Forall_forall. intros y Hy. destruct HB1 as [->|Hne]; [destruct Hy|].
+    assert (wdec (depths B1)) as HwB1 by (rewrite EB, depths_app in Hwb; apply wdec_app in Hwb; tauto).
+    destruct (depths B1) as [|h t] eqn:EdB; [destruct Hy|]. cbn [hd] in Hne.
+    pose proof (hd_ge_all _ _ HwB1 y Hy) as H1'.
+    assert (q >= h) as H2'.
+    { rewrite Eb in Hwb. cbn [depths map] in Hwb. apply (hd_ge_all _ _ Hwb). right. fold (depths br).
+      assert (In h (depths b)) as Hin by (rewrite EB, depths_app, EdB; apply in_or_app; right; left; reflexivity).
+      rewrite Eb in Hin. cbn [depths map] in Hin. destruct Hin as [E|Hin]; [|exact Hin].
+      exfalso. apply Hne. fold q in E. congruence. }
+    lia. }
+  assert (forall e, cnt e (depths A0) < D) as HcA.
+  { intros e. destruct (Nat.eq_dec e p) as [->|He]; [rewrite (cnt_gt p _ HgA); lia|].
+    destruct HLI2 as [_ Hc]. destruct (Hc e) as [_ Hc2]. rewrite <- Ep in Hc2. specialize (Hc2 He).
+    rewrite EA, depths_app, cnt_app in Hc2. lia. }
+  assert (forall e, cnt e (depths B1) < D) as HcB.
+  { intros e. destruct Ib as [_ Hc]. specialize (Hc e). rewrite EB, depths_app, cnt_app in Hc. lia. }
+  assert (wdec (depths (A0 ++ Pp ++ Qq ++ B1))) as Hwab.
+  { rewrite app_assoc, <- EA, <- EB, depths_app. apply wdec_app. split; [exact Hwa|]. split; [exact Hwb|].
+    intros x y Hx Hy. pose proof (wdec_ge_last _ x Hwa Hx) as H1'. rewrite <- Ep in H1'.
+    rewrite Eb in Hwb, Hy. cbn [depths map] in Hwb, Hy. pose proof (hd_ge_all _ _ Hwb y Hy) as H2'. fold q in H2'. lia. }
+  (* the indices the Go code computes *)
+  assert (length a2 - PageTree.lead_run p (rev (depths a2)) = length A0) as -> by (rewrite <- HlP, EA, app_length; lia).
+  assert (S (length a2) + PageTree.lead_run q (skipn (S (length a2)) (depths (a2 ++ b))) = length A0 + (length Pp + length Qq)) as ->.
+  { rewrite depths_app, skipn_app, skipn_all2 by (rewrite depths_length; lia). rewrite depths_length. cbn [app].
+    replace (S (length a2) - length a2) with 1 by lia. rewrite HlQ, Eb. cbn [depths map skipn PageTree.lead_run]. fold q.
+    rewrite Nat.eqb_refl, EA, app_length. lia. }
+  replace (a2 ++ b) with (A0 ++ Pp ++ Qq ++ B1) by (rewrite EA, EB, <- !app_assoc; reflexivity).
+  assert (q <= p) as Hqp by lia.
+  destruct (Nat.eq_dec q p) as [Eqp|Nqp].
+  - apply (core_eq A0 Pp Qq B1 p q); auto; try lia.
+  - destruct (Nat.lt_ge_cases (length Pp + length Qq) D) as [Hsm|Hbig].
+    + apply (core_small A0 Pp Qq B1 p q); auto; try lia.
+    + apply (core_big A0 Pp Qq B1 p q); auto; try lia.
 Qed.
 
 End Merge.
